@@ -10,6 +10,7 @@ from .core import Ctx, Deadlock, HorizonHit
 from .world import VSelector, World
 
 logging.getLogger("asyncio").setLevel(logging.CRITICAL)
+logging.getLogger("easynetwork").setLevel(logging.CRITICAL + 1)
 
 
 class VLoop(asyncio.SelectorEventLoop):
